@@ -1,9 +1,11 @@
 package main
 
 import (
+	"bytes"
 	"encoding/binary"
 	"fmt"
 	"runtime/metrics"
+	"sort"
 	"strconv"
 	"strings"
 
@@ -25,7 +27,7 @@ func init() {
 	setTier("C04", 20000, 400, 1200000, 1800)
 	levelOf["C04"] = "fault_enumeration"
 	addressSpaceLimit["C04"] = 8 << 30
-	ruleOf["C04"] = "one run = one valid encoding generated from the tape (a value of any of the 21 tags nested to depth 3, a registered pack, an unregistered SM pack, a step stream, a transaction record, an int-int map or a typed list) subjected to (a) truncation at every byte offset (for encodings above 1 KiB: every offset in the first 256 and last 64 bytes, strided in between), decoded both from a buffer and through a simulated connection that delivers seeded fragments and then EOF/reset, and (b) overwrite of every byte with {00,7f,80,fe,ff} plus 4-byte and 8-byte big-endian hostile length patterns at every offset (exhaustive up to 256 bytes, strided above); evaluations = runs; distinct_nontrivial = distinct cells (decoder kind, fault kind, offset class, outcome) reached, every one of which executed real decoder code on a faulty input"
+	ruleOf["C04"] = "one run = one valid encoding generated from the tape (a value of any of the 21 tags nested to depth 3, a registered pack, an unregistered SM pack, a step stream, a transaction record, an int-int map or a typed list; one run in 60 a bulk encoding of 230-1500 addresses/short blobs or socket/sql/secure steps with individual content) first decoded completely and encoded again (round trip: the object must hold the input's data and nothing else), then subjected to (a) truncation at every byte offset (for encodings above 1 KiB: every offset in the first 256 and last 64 bytes, strided in between), decoded both from a buffer and through a simulated connection that delivers seeded fragments and then EOF/reset, and (b) overwrite of every byte with {00,7f,80,fe,ff} plus 4-byte and 8-byte big-endian hostile length patterns at every offset (exhaustive up to 256 bytes, strided above); evaluations = runs; distinct_nontrivial = distinct cells (decoder kind, fault kind, offset class, outcome) reached, every one of which executed real decoder code on a faulty input"
 	assumptionsOf["C04"] = []string{
 		"a decoder that returns normally on a strict prefix is legitimate only if it did not read past the end of the prefix (Available() >= 0) and the connection mode, which can only hand out bytes it has, also returns normally; this decides the 'complete older version' exception behaviourally",
 		"memory bound per decode: bytes allocated (runtime/metrics /gc/heap/allocs:bytes delta) <= 4 MiB + 64 x len(input) (the constant absorbs 16-bit count fields and the per-P lag of the allocation counter; a measurement above the bound is confirmed by decoding the same input again); hostile length patterns are capped at 2^27 so that a violating allocation stays survivable inside the worker process",
@@ -34,7 +36,7 @@ func init() {
 	}
 	realComponents["C04"] = []string{"io.DataInputX (buffer mode and NewDataInputNet mode)", "value.ReadValue (21 tags)", "pack.ReadPack (all registered packs)", "SM pack Read methods", "step.ReadStep", "service.TxRecord.ToObject", "hmap.IntIntMap.ToObject", "list.IntList/StringList/LongList Read"}
 	stubComponents["C04"] = []string{"net.Conn byte source (simnet pipe: seeded fragmentation, EOF or reset at the truncation offset)"}
-	probesFor["C04"] = []string{"read_fragmented", "unknown_tag_hit", "trunc_panicked", "overwrite_panicked", "overwrite_decoded"}
+	probesFor["C04"] = []string{"roundtrip_equal", "read_fragmented", "unknown_tag_hit", "trunc_panicked", "overwrite_panicked", "overwrite_decoded"}
 	register(&Scenario{Prop: "C04", Name: "decode", MaxSteps: 50000000, Body: c04Body, After: c04After, StepcapIsViolation: true})
 }
 
@@ -234,8 +236,104 @@ var c04UdpTypes = []uint8{udp.TX_START, udp.TX_DB_CONN, udp.TX_DB_FETCH, udp.TX_
 var c04StepTypes = []byte{step.STEP_METHOD_X, step.STEP_SQL_X, step.STEP_RESULTSET, step.STEP_SOCKET, step.STEP_HTTPCALL_X,
 	step.STEP_ACTIVE_STACK, step.STEP_MESSAGE, step.STEP_SECURE_MESSAGE, step.STEP_DBC}
 
+// c04RT carries the round-trip oracle: while on, the decoder re-encodes what it decoded
+// into got; want is what a faithful decode must re-encode to (the input itself unless set).
+type c04RT struct {
+	on   bool
+	want []byte
+	got  []byte
+}
+
+var rt04 = &c04RT{}
+
+// c04CanonIntInt: a hash table's entry order depends on insertion history, not on content.
+func c04CanonIntInt(m *hmap.IntIntMap) []byte {
+	var ks []int
+	en := m.Keys()
+	for en.HasMoreElements() {
+		ks = append(ks, int(en.NextInt()))
+	}
+	sort.Ints(ks)
+	var sb strings.Builder
+	for _, k := range ks {
+		fmt.Fprintf(&sb, "%d=%d;", k, m.Get(int32(k)))
+	}
+	return []byte(sb.String())
+}
+
+// c04Bulk draws encodings whose single reader passes many thousands of small retained
+// fields (addresses, short blobs), each with its own content: data a decoder keeps must
+// still be the input's data after the decoder has read on.
+func c04Bulk() (c04Case, []byte, func(in *wio.DataInputX)) {
+	n := []int{230, 300, 520, 800, 1200, 1500}[simrt.Choose(6)]
+	salt := simrt.Choose(200)
+	ip := func(i int) []byte { return []byte{byte(10 + salt%100), byte(i >> 8), byte(i), byte(i*7 + salt)} }
+	switch simrt.Choose(4) {
+	case 0:
+		l := value.NewListValue(nil)
+		for i := 0; i < n; i++ {
+			if i%5 == 4 {
+				l.Add(value.NewBlobValue(append([]byte("b"), ip(i)...)))
+			} else {
+				l.Add(value.NewIP4Value(ip(i)))
+			}
+		}
+		b := value.WriteValue(wio.NewDataOutputX(), l).ToByteArray()
+		return c04Case{Kind: "value", Desc: fmt.Sprintf("list of %d addresses", n)}, b, func(in *wio.DataInputX) {
+			v := value.ReadValue(in)
+			if rt04.on {
+				rt04.got = value.WriteValue(wio.NewDataOutputX(), v).ToByteArray()
+			}
+		}
+	case 1:
+		m := value.NewMapValue()
+		for i := 0; i < n; i++ {
+			m.Put("k"+strconv.Itoa(i), value.NewIP4Value(ip(i)))
+		}
+		b := value.WriteValue(wio.NewDataOutputX(), m).ToByteArray()
+		return c04Case{Kind: "value", Desc: fmt.Sprintf("map of %d addresses", n)}, b, func(in *wio.DataInputX) {
+			v := value.ReadValue(in)
+			if rt04.on {
+				rt04.got = value.WriteValue(wio.NewDataOutputX(), v).ToByteArray()
+			}
+		}
+	default:
+		var steps []step.Step
+		for i := 0; i < n; i++ {
+			switch (i + salt) % 3 {
+			case 0:
+				s := step.NewSocketStep()
+				s.IpAddr, s.Port, s.Elapsed = ip(i), int32(i), int32(salt)
+				steps = append(steps, s)
+			case 1:
+				s := step.NewSqlStepX()
+				s.Hash, s.P1, s.P2 = int32(i), append([]byte("p1"), ip(i)...), append([]byte("p2"), ip(i)...)
+				steps = append(steps, s)
+			default:
+				s := step.NewSecureMsgStep()
+				s.Hash, s.Value = int32(i), append([]byte("sec"), ip(i)...)
+				steps = append(steps, s)
+			}
+			steps[i].SetStartTime(int32(i))
+			steps[i].SetIndex(int32(i))
+		}
+		return c04Case{Kind: "steps", Desc: fmt.Sprintf("%d socket/sql/secure steps", n)}, step.ToBytesStep(steps), func(in *wio.DataInputX) {
+			var got []step.Step
+			for i := 0; i < n; i++ {
+				got = append(got, step.ReadStep(in))
+			}
+			if rt04.on {
+				rt04.got = step.ToBytesStep(got)
+			}
+		}
+	}
+}
+
 // c04Gen draws one valid encoding and the decoder that must consume it.
 func c04Gen() (c04Case, []byte, func(in *wio.DataInputX)) {
+	if simrt.Chance(1, 60) {
+		return c04Bulk()
+	}
 	switch simrt.Choose(12) {
 	case 11:
 		// a container whose inner packs are decoded by a second pass (ZipPack.GetRecords):
@@ -249,9 +347,25 @@ func c04Gen() (c04Case, []byte, func(in *wio.DataInputX)) {
 		}
 		z := pack.NewZipPack()
 		z.SetRecords(inner)
+		var want []byte
+		for _, p := range inner {
+			// by design the container's identity replaces each inner record's own
+			p.SetPCODE(z.Pcode)
+			p.SetOID(z.Oid)
+			p.SetOKIND(z.Okind)
+			p.SetONODE(z.Onode)
+			want = append(want, pack.ToBytesPack(p)...)
+		}
+		rt04.want = want
 		return c04Case{Kind: "ziprecords", Desc: strings.TrimSpace(names)}, pack.ToBytesPack(z), func(in *wio.DataInputX) {
 			if zp, ok := pack.ReadPack(in).(*pack.ZipPack); ok {
-				zp.GetRecords()
+				recs := zp.GetRecords()
+				if rt04.on {
+					rt04.got = []byte{}
+					for _, p := range recs {
+						rt04.got = append(rt04.got, pack.ToBytesPack(p)...)
+					}
+				}
 			}
 		}
 	case 10:
@@ -267,22 +381,43 @@ func c04Gen() (c04Case, []byte, func(in *wio.DataInputX)) {
 		return c04Case{Kind: "udppack", Desc: fmt.Sprintf("type %d ver %d", t, ver)}, b, func(in *wio.DataInputX) {
 			q := udp.ReadPack(t, ver, in)
 			if q != nil {
+				if rt04.on {
+					rt04.got = udp.ToBytesPack(q)
+				}
 				udp.ClosePack(q)
 			}
 		}
 	case 0, 1, 2:
 		v := c04Value(3)
 		b := value.WriteValue(wio.NewDataOutputX(), v).ToByteArray()
-		return c04Case{Kind: "value", Desc: fmt.Sprintf("tag %d", v.GetValueType())}, b, func(in *wio.DataInputX) { value.ReadValue(in) }
+		return c04Case{Kind: "value", Desc: fmt.Sprintf("tag %d", v.GetValueType())}, b, func(in *wio.DataInputX) {
+			v := value.ReadValue(in)
+			if rt04.on {
+				rt04.got = value.WriteValue(wio.NewDataOutputX(), v).ToByteArray()
+			}
+		}
 	case 3, 4, 5:
 		p, name := c04Pack()
-		return c04Case{Kind: "pack", Desc: name}, pack.ToBytesPack(p), func(in *wio.DataInputX) { pack.ReadPack(in) }
+		return c04Case{Kind: "pack", Desc: name}, pack.ToBytesPack(p), func(in *wio.DataInputX) {
+			q := pack.ReadPack(in)
+			if rt04.on {
+				rt04.got = pack.ToBytesPack(q)
+			}
+		}
 	case 6:
 		mk := c04SM[simrt.Choose(len(c04SM))]
 		p, name := mk()
 		o := wio.NewDataOutputX()
 		p.Write(o)
-		return c04Case{Kind: "smpack", Desc: name}, o.ToByteArray(), func(in *wio.DataInputX) { q, _ := mk(); q.Read(in) }
+		return c04Case{Kind: "smpack", Desc: name}, o.ToByteArray(), func(in *wio.DataInputX) {
+			q, _ := mk()
+			q.Read(in)
+			if rt04.on {
+				o := wio.NewDataOutputX()
+				q.Write(o)
+				rt04.got = o.ToByteArray()
+			}
+		}
 	case 7:
 		n := 1 + simrt.Choose(4)
 		var steps []step.Step
@@ -296,8 +431,12 @@ func c04Gen() (c04Case, []byte, func(in *wio.DataInputX)) {
 			names = append(names, strconv.Itoa(int(t)))
 		}
 		return c04Case{Kind: "steps", Desc: strings.Join(names, ",")}, step.ToBytesStep(steps), func(in *wio.DataInputX) {
+			var got []step.Step
 			for i := 0; i < n; i++ {
-				step.ReadStep(in)
+				got = append(got, step.ReadStep(in))
+			}
+			if rt04.on {
+				rt04.got = step.ToBytesStep(got)
 			}
 		}
 	case 8:
@@ -305,7 +444,13 @@ func c04Gen() (c04Case, []byte, func(in *wio.DataInputX)) {
 		tx.Service = int32(simrt.Choose(1 << 20))
 		tx.Elapsed = int32(simrt.Choose(100000))
 		tx.EndTime = 1700000000000
-		return c04Case{Kind: "txrecord", Desc: "TxRecord"}, tx.ToBytes(), func(in *wio.DataInputX) { service.NewTxRecord().Read(in) }
+		return c04Case{Kind: "txrecord", Desc: "TxRecord"}, tx.ToBytes(), func(in *wio.DataInputX) {
+			q := service.NewTxRecord()
+			q.Read(in)
+			if rt04.on {
+				rt04.got = q.ToBytes()
+			}
+		}
 	default:
 		switch simrt.Choose(4) {
 		case 0:
@@ -316,7 +461,14 @@ func c04Gen() (c04Case, []byte, func(in *wio.DataInputX)) {
 			}
 			o := wio.NewDataOutputX()
 			m.ToBytes(o)
-			return c04Case{Kind: "intintmap", Desc: "IntIntMap"}, o.ToByteArray(), func(in *wio.DataInputX) { hmap.NewIntIntMapDefault().ToObject(in) }
+			rt04.want = c04CanonIntInt(m)
+			return c04Case{Kind: "intintmap", Desc: "IntIntMap"}, o.ToByteArray(), func(in *wio.DataInputX) {
+				q := hmap.NewIntIntMapDefault()
+				q.ToObject(in)
+				if rt04.on {
+					rt04.got = c04CanonIntInt(q)
+				}
+			}
 		case 1:
 			l := list.NewIntListDefault()
 			n := simrt.Choose(6)
@@ -325,7 +477,15 @@ func c04Gen() (c04Case, []byte, func(in *wio.DataInputX)) {
 			}
 			o := wio.NewDataOutputX()
 			l.Write(o)
-			return c04Case{Kind: "typedlist", Desc: "IntList"}, o.ToByteArray(), func(in *wio.DataInputX) { list.NewIntListDefault().Read(in) }
+			return c04Case{Kind: "typedlist", Desc: "IntList"}, o.ToByteArray(), func(in *wio.DataInputX) {
+				q := list.NewIntListDefault()
+				q.Read(in)
+				if rt04.on {
+					o := wio.NewDataOutputX()
+					q.Write(o)
+					rt04.got = o.ToByteArray()
+				}
+			}
 		case 2:
 			l := list.NewStringListDefault()
 			n := simrt.Choose(5)
@@ -334,7 +494,15 @@ func c04Gen() (c04Case, []byte, func(in *wio.DataInputX)) {
 			}
 			o := wio.NewDataOutputX()
 			l.Write(o)
-			return c04Case{Kind: "typedlist", Desc: "StringList"}, o.ToByteArray(), func(in *wio.DataInputX) { list.NewStringListDefault().Read(in) }
+			return c04Case{Kind: "typedlist", Desc: "StringList"}, o.ToByteArray(), func(in *wio.DataInputX) {
+				q := list.NewStringListDefault()
+				q.Read(in)
+				if rt04.on {
+					o := wio.NewDataOutputX()
+					q.Write(o)
+					rt04.got = o.ToByteArray()
+				}
+			}
 		default:
 			l := list.NewLongListDefault()
 			n := simrt.Choose(6)
@@ -343,7 +511,15 @@ func c04Gen() (c04Case, []byte, func(in *wio.DataInputX)) {
 			}
 			o := wio.NewDataOutputX()
 			l.Write(o)
-			return c04Case{Kind: "typedlist", Desc: "LongList"}, o.ToByteArray(), func(in *wio.DataInputX) { list.NewLongListDefault().Read(in) }
+			return c04Case{Kind: "typedlist", Desc: "LongList"}, o.ToByteArray(), func(in *wio.DataInputX) {
+				q := list.NewLongListDefault()
+				q.Read(in)
+				if rt04.on {
+					o := wio.NewDataOutputX()
+					q.Write(o)
+					rt04.got = o.ToByteArray()
+				}
+			}
 		}
 	}
 }
@@ -418,6 +594,7 @@ func c04Body(rc *RunCtx) {
 	var cs c04Case
 	var enc []byte
 	var dec func(*wio.DataInputX)
+	*rt04 = c04RT{}
 	func() {
 		defer func() {
 			if r := recover(); r != nil {
@@ -450,7 +627,9 @@ func c04Body(rc *RunCtx) {
 		rc.Cells = append(rc.Cells, cs.Kind+"|"+fault+"|"+cls+"|"+outcome)
 	}
 	// sanity: the complete encoding decodes and consumes exactly its bytes
+	rt04.on = true
 	full := c04Decode(enc, dec)
+	rt04.on = false
 	d.Decodes++
 	if full.panicked || full.avail != 0 {
 		d.Notes = append(d.Notes, fmt.Sprintf("corpus entry not self-consistent: panicked=%v %s avail=%d", full.panicked, full.msg, full.avail))
@@ -459,15 +638,36 @@ func c04Body(rc *RunCtx) {
 		return
 	}
 	simrt.Probe("corpus:" + cs.Kind)
+	// round trip: what the decoder returned, encoded again, is the input — nothing in the
+	// object came from anywhere else (and nothing it kept was overwritten by later reads)
+	if rt04.got != nil {
+		want := rt04.want
+		if want == nil {
+			want = enc
+		}
+		if !bytes.Equal(rt04.got, want) {
+			at := 0
+			for at < len(want) && at < len(rt04.got) && want[at] == rt04.got[at] {
+				at++
+			}
+			viol("fabricated-data", fmt.Sprintf("the complete encoding decodes to an object that encodes differently: %d bytes in, %d bytes back, first difference at offset %d", len(want), len(rt04.got), at))
+		} else {
+			simrt.Probe("roundtrip_equal")
+		}
+	}
 	bound := func(n int) uint64 { return 4<<20 + 64*uint64(n) }
 	n := len(enc)
 	// (a) truncation at every offset, buffer mode and connection mode
 	tstride := 1
+	thead := 256
 	if n > 1024 {
 		tstride = n / 300 // long encodings: every offset near both ends, strided in between
 	}
+	if n > 8000 {
+		tstride, thead = n/60, 64 // bulk encodings are in the corpus for the round trip; sweep them lightly
+	}
 	for k := 0; k < n && !stop; k++ {
-		if tstride > 1 && k >= 256 && k < n-64 && k%tstride != 0 {
+		if tstride > 1 && k >= thead && k < n-64 && k%tstride != 0 {
 			continue
 		}
 		pre := enc[:k]
@@ -508,6 +708,10 @@ func c04Body(rc *RunCtx) {
 	if n > 2000 {
 		stride = n / 60
 	}
+	ohead := 96
+	if n > 8000 {
+		stride, ohead = n/20, 32
+	}
 	check := func(fault string, i int, mut []byte) {
 		if stop {
 			return
@@ -541,7 +745,7 @@ func c04Body(rc *RunCtx) {
 	}
 	mut := make([]byte, n)
 	for i := 0; i < n && !stop; i++ {
-		if i >= 96 && i%stride != 0 {
+		if i >= ohead && i%stride != 0 {
 			continue // headers and leading count fields exhaustively, the body strided
 		}
 		for _, v := range []byte{0x00, 0x7f, 0x80, 0xfe, 0xff} {
